@@ -50,6 +50,9 @@ def counter_cases(seed, n):
 def run_sched_property(pid, tier, seed, level="other", level_note=None, extra_cases=None, seq_part=None):
     t0 = time.time()
     names, done, problems = common.obligations(pid)
+    chk = common.coqchk(run_if_missing=(tier == "thorough"))
+    if chk.get("status") == "failed":
+        problems = problems + ["coqchk rejects the compiled development: " + chk.get("tail", "")[-300:]]
     tmp = None
     try:
         try:
@@ -118,7 +121,7 @@ def run_sched_property(pid, tier, seed, level="other", level_note=None, extra_ca
         coverage = dict(
             obligations=len(names), discharged=len(done), theorems=names,
             checker_cmd="cd /verif/coq && make -j16 && coqc -Q . GB Properties.v  (Print Assumptions under every theorem; coqchk -silent -o in the thorough tier)",
-            trusted_base=common.TRUSTED_BASE,
+            trusted_base=common.TRUSTED_BASE, coqchk={k: v for k, v in chk.items() if k != "tail"},
             evaluations=len(go), scheduled_steps=nsteps, programs=len(cases),
             distinct_nontrivial=len(preempt_runs),
             rule="seeded client programs (2-3 goroutines x 1-3 calls, random initial trees) under seeded random schedules chosen by the cooperative scheduler; every executed schedule is replayed on the extracted concurrent model and compared step by step; distinct = different (case, executed schedule); non-trivial = at least two context switches",
